@@ -72,7 +72,8 @@ REQUIRED = ["op:refine-normal", "op:refine-neighbour", "op:refine-permutation", 
             "boundary:overlap-at-margin", "boundary:merge-span-at-limit", "boundary:hmmer-overlap-at-limit",
             "boundary:docking-49/50", "out:merge", "drop:better-kept-conflict", "drop:incomplete-with-alternative",
             "filter_results:overlap-group", "filter_multiple:profile-with-copies", "exhaustive:sets",
-            "op:refine-real-biopython-objects", "op:ruleset-history", "class:hits-below-their-profile-cutoff"]
+            "op:refine-real-biopython-objects", "op:ruleset-history", "class:hits-below-their-profile-cutoff",
+            "shape:restart-then-merge"]
 
 MAX_ALL_PERMS = 5
 RANDOM_PERMS = 10
@@ -823,6 +824,7 @@ def run(ctx):
             ("ruleset-history", _history_case, ctx.quota(150, 20000))]
     reserve = 0.25 * ctx.budget_s
     shares = {"refine": 0.42, "hmmer": 0.14, "filter": 0.11, "docking": 0.03, "ruleset-history": 0.05}
+    restart_rng = ctx.rng("restart-then-merge")
     for name, gen, count in plan:
         rng = ctx.rng(name)
         stop_at = ctx.time_left() - shares[name] * ctx.budget_s
@@ -830,7 +832,11 @@ def run(ctx):
             if i % 16 == 0 and ctx.time_left() < max(stop_at, reserve):
                 ctx.counters[f"time_share_stop:{name}"] = i
                 break
-            case = gen(rng)
+            if name == "refine" and i % 20 == 19:
+                case = G.restart_then_merge_case(restart_rng)
+                ctx.count("shape:restart-then-merge")
+            else:
+                case = gen(rng)
             ctx.guard("harness-or-crash", case, RUNNERS[name], ctx, case)
     exhaustive_refine(ctx, 2 if ctx.tier == "quick" else 3)
 
